@@ -53,6 +53,36 @@ fn mtbl(entries: &[(V, V)]) -> V {
     t
 }
 
+/// exact numeric comparison of an integer with a non-NaN real
+fn exact_cmp(i: i64, r: f64) -> Option<std::cmp::Ordering> {
+    use std::cmp::Ordering::*;
+    if r.is_nan() {
+        return None;
+    }
+    let two63 = 9_223_372_036_854_775_808.0f64;
+    if r >= two63 {
+        return Some(Less);
+    }
+    if r < -two63 {
+        return Some(Greater);
+    }
+    let t = r.trunc();
+    let ti = t as i64; // exact: |t| < 2^63 (or t = -2^63)
+    Some(match i.cmp(&ti) {
+        Equal => {
+            let frac = r - t;
+            if frac > 0.0 {
+                Less
+            } else if frac < 0.0 {
+                Greater
+            } else {
+                Equal
+            }
+        }
+        o => o,
+    })
+}
+
 fn universe(vm: &mut Vm<()>) -> Vec<Elem> {
     let mut u: Vec<Elem> = Vec::new();
     let mut push = |name: &str, lawful: bool, host: Value, model: V, script: Option<Vec<C>>| {
@@ -70,7 +100,7 @@ fn universe(vm: &mut Vm<()>) -> Vec<Elem> {
     for i in [0i64, 1, -1, 2, 3, 1 << 53, (1 << 53) + 1, i64::MIN, i64::MAX] {
         push(&format!("int {i}"), true, Value::Integer(i), V::Int(i), var(C::Int(i)));
     }
-    for r in [0.0f64, -0.0, 1.0, -1.0, 0.5, 2.0, 3.0, (1u64 << 53) as f64, 1e300, f64::INFINITY, f64::NEG_INFINITY, f64::NAN] {
+    for r in [0.0f64, -0.0, 1.0, -1.0, 0.5, 2.0, 3.0, (1u64 << 53) as f64, 9_223_372_036_854_775_808.0, -9_223_372_036_854_775_808.0, 1e19, -1e19, 1e300, f64::INFINITY, f64::NEG_INFINITY, f64::NAN] {
         push(&format!("real {r:?}"), true, Value::Real(r), V::Real(r), var(C::Float(r)));
     }
     for s in ["", "a", "b", "ab", "abc"] {
@@ -194,9 +224,26 @@ fn check_pair(a: &Elem, b: &Elem, vm: &mut Vm<()>, out: &mut Vec<Violation>) {
         }
         if let Some(o) = refsem::compare(&a.model, &b.model) {
             let (ml, mle) = (o == Ord3::Less, o == Ord3::Less || o == Ord3::Equal);
-            let precise = a.exact && b.exact;
+            // an integer and a real that are not both exactly representable in the other kind:
+            // the statement does not say how a tie at the f64 rounding boundary resolves, so both
+            // the exact numeric order and the order after converting the integer to a real are
+            // accepted - anything else contradicts the numeric value under either reading
+            let mixed = matches!((&a.host, &b.host), (Value::Integer(_), Value::Real(_)) | (Value::Real(_), Value::Integer(_)));
+            let precise = !mixed || (a.exact && b.exact);
             if (lt(x, y) != ml || le(x, y) != mle) && precise && a.lawful && b.lawful {
                 out.push(viol(&format!("order-vs-reference:{kk}"), format!("{} < {} is {}, <= is {}; the language's order says {ml} / {mle}", a.name, b.name, lt(x, y), le(x, y)), &names));
+            }
+            if !precise && a.lawful && b.lawful {
+                let (ex, cast) = match (&a.host, &b.host) {
+                    (Value::Integer(i), Value::Real(r)) => (exact_cmp(*i, *r), (*i as f64).partial_cmp(r)),
+                    (Value::Real(r), Value::Integer(i)) => (exact_cmp(*i, *r).map(|o| o.reverse()), r.partial_cmp(&(*i as f64))),
+                    _ => (None, None),
+                };
+                let got = (lt(x, y), le(x, y));
+                let shape = |o: Option<std::cmp::Ordering>| o.map(|o| (o == std::cmp::Ordering::Less, o != std::cmp::Ordering::Greater));
+                if Some(got) != shape(ex) && Some(got) != shape(cast) {
+                    out.push(viol(&format!("order-vs-numeric:{kk}"), format!("{} < {} is {}, <= is {}; by exact numeric value the order is {ex:?}, after converting the integer to a real {cast:?}", a.name, b.name, got.0, got.1), &names));
+                }
             }
         }
     }
@@ -449,11 +496,11 @@ impl Check for C19 {
     }
     fn info(&self, _tier: Tier) -> CheckInfo {
         CheckInfo {
-            rule: "finite universe built through the host API of one real VM: nil; ints {0,1,-1,2,3,2^53,2^53+1,MIN,MAX}; reals {0.0,-0.0,1.0,-1.0,0.5,2.0,3.0,2^53,1e300,inf,-inf,NaN}; strings \"\",a,b,ab,abc as two distinct objects each; tables {}, {0:1} twice, {0:1,1:2}, {1:2,0:1}, {\"a\":{}}, {0:\"a\"}, two tables grown to 20+ entries and shrunk back; plus 96 fresh-vs-grown table pairs (8 key sets x growth by 6..60 fillers x filler phase before/after) with equal contents and different bucket layouts; function, native, closure values and a table holding a function. All pairs and all triples: reflexivity, symmetry, transitivity of ==; a==b => equal hashes (signed zero excepted) and 'a table keyed by a is hit by b'; a==b => neither is less and <= holds both ways; a<b => not b<a and a<=b; == and the order agree with the reference semantics (exactly representable numbers only); truthiness; every operation returns on every element. Script seam: every constructible pair through compiled Equals/NotEquals/Less/LessOrEq cards agrees with the host operators. states = pairs; distinct_nontrivial = distinct (kind, kind, eq, lt, le, same-hash) signatures".into(),
+            rule: "finite universe built through the host API of one real VM: nil; ints {0,1,-1,2,3,2^53,2^53+1,MIN,MAX}; reals {0.0,-0.0,1.0,-1.0,0.5,2.0,3.0,2^53,2^63,-2^63,1e19,-1e19,1e300,inf,-inf,NaN}; strings \"\",a,b,ab,abc as two distinct objects each; tables {}, {0:1} twice, {0:1,1:2}, {1:2,0:1}, {\"a\":{}}, {0:\"a\"}, two tables grown to 20+ entries and shrunk back; plus 96 fresh-vs-grown table pairs (8 key sets x growth by 6..60 fillers x filler phase before/after) with equal contents and different bucket layouts; function, native, closure values and a table holding a function. All pairs and all triples: reflexivity, symmetry, transitivity of ==; a==b => equal hashes (signed zero excepted) and 'a table keyed by a is hit by b'; a==b => neither is less and <= holds both ways; a<b => not b<a and a<=b; == and the order agree with the reference semantics (an integer against a real where one of them is not exactly representable in the other kind must agree with the exact numeric order or with the order after converting the integer to a real); truthiness; every operation returns on every element. Script seam: every constructible pair through compiled Equals/NotEquals/Less/LessOrEq cards agrees with the host operators. states = pairs; distinct_nontrivial = distinct (kind, kind, eq, lt, le, same-hash) signatures".into(),
             bound: "all pairs and triples of the universe (exhaustive)".into(),
             exhaustive: true,
             assumptions: vec![
-                "int/real pairs that are not exactly representable in both kinds (2^53+1, i64::MAX/MIN against reals) are evaluated and counted as precision cases, not judged (the statement does not say how ties at the f64 rounding boundary resolve)".into(),
+                "int/real pairs that are not exactly representable in both kinds (2^53+1, i64::MAX/MIN against reals): both the exact numeric order and the order after converting the integer to a real are accepted (the statement does not say how ties at the f64 rounding boundary resolve); equality of such pairs is not judged against the reference".into(),
                 "NaN is excluded from the laws, signed zeros from the hash law (documented exceptions)".into(),
                 "self-containing tables are excluded (acyclic values only; see C04's open findings)".into(),
             ],
